@@ -61,6 +61,21 @@ def spell_interval(rng, node, a_ns, b_ns, default):
     return style
 
 
+def shaped_past(rng, g):
+    """pastification shapes in which a bounded past operator, or next, must be shifted by the horizon of a sibling: the shift is
+    computed in the default unit while the bounds are written in another one"""
+    at = lambda: g.atom()
+    iv = lambda: rng.choice([(0, 1), (1, 2), (0, 2), (2, 2), (1, 3)])
+    fut = rng.choice([lambda: un("evT", at(), *iv()), lambda: un("alwT", at(), *iv()), lambda: bi("untilT", at(), at(), *iv()),
+                      lambda: un("next", un("evT", at(), *iv()))])()
+    sib = rng.choice([lambda: un("onceT", at(), *iv()), lambda: un("histT", at(), *iv()), lambda: bi("sinceT", at(), at(), *iv()),
+                      lambda: un("next", at()), lambda: un("next", at()), lambda: un("not", un("onceT", at(), *iv()))])()
+    phi = bi(rng.choice(["and", "or", "implies"]), *((sib, fut) if rng.random() < 0.5 else (fut, sib)))
+    if rng.random() < 0.3:
+        phi = un(rng.choice(["evT", "alwT"]), phi, 0, rng.choice([1, 2]))
+    return phi
+
+
 def write_ast(rng, phi, period_ns, default, halfstep=None):
     """copy of phi (bounds in samples) with every timed node spelled out; halfstep: node index to make a non-multiple"""
     w = copy.deepcopy(phi)
@@ -117,6 +132,8 @@ def main():
             break
         else:
             continue
+        if kind == "past" and rng.random() < 0.4:
+            phi = shaped_past(rng, g)
         vs = vars_of(phi) or ["x"]
         pnum, punit = rng.choice(PERIODS)
         period_ns = pnum * 10 ** E[punit]
